@@ -488,6 +488,23 @@ int main(int argc, char** argv)
                              || fi.blockSizeID != (prefs.frameInfo.blockSizeID ? prefs.frameInfo.blockSizeID : LZ4F_max64KB)) c_fail(&r, "getFrameInfo_wrong_parameters");
                     LZ4F_resetDecompressionContext(dctx);
                 }
+                {   /* a skippable frame then this frame in one buffer, consumed frame by frame on the context as it is now (it has a history);
+                     * LZ4F_getFrameInfo in front of the skippable frame (it consumes its magic number) in most cases; any feed size incl. 1..3 bytes */
+                    u8* buf = xalloc(48 + fsz); u32 magic = 0x184D2A50u + rndn(16), ssz = rndn(40); size_t pos = 0, k2, total; decres_t d3; int pol = (int[]){1, 1, 2, 0}[rndn(4)];
+                    memcpy(buf, &magic, 4); memcpy(buf + 4, &ssz, 4); for (k2 = 0; k2 < ssz; k2++) buf[8 + k2] = (u8)rnd(); memcpy(buf + 8 + ssz, a.p, fsz); total = 8 + ssz + fsz;
+                    if (rndp(75)) { LZ4F_frameInfo_t fi; size_t c = rndp(50) ? total : 8 + rndn(11); size_t hr = LZ4F_getFrameInfo(dctx, &fi, buf, &c);   /* needs the 8 bytes of magic number + size, consumes the magic number */ n_calls++;
+                        if (LZ4F_isError(hr)) c_fail(&r, "getFrameInfo_failed"); else { pos = c; if (fi.frameType != LZ4F_skippableFrame) c_fail(&r, "getFrameInfo_wrong_parameters"); } }
+                    d3 = decode_frame(dctx, buf + pos, total - pos, pol, 0, NULL, 0, rnd()); n_decodes++;
+                    if (d3.verdict != 0) { c_fail(&r, "reused_dctx_failed_on_valid_frame"); LZ4F_resetDecompressionContext(dctx); }
+                    else if (pos + d3.consumed != 8 + ssz) c_fail(&r, "completion_did_not_stop_at_frame_end");
+                    else if (d3.out.n != 0) c_fail(&r, "reused_dctx_wrong_content");
+                    else { decres_t d4 = decode_frame(dctx, buf + 8 + ssz, fsz, (int[]){0, 1, 2}[rndn(3)], 0, NULL, 0, rnd()); n_decodes++;
+                        if (d4.verdict != 0) { c_fail(&r, "reused_dctx_failed_on_valid_frame"); LZ4F_resetDecompressionContext(dctx); }
+                        else if (d4.consumed != fsz) c_fail(&r, "completion_did_not_stop_at_frame_end");
+                        else if (d4.out.n != n || (n && memcmp(d4.out.p, data, n) != 0)) c_fail(&r, "reused_dctx_wrong_content");
+                        free(d4.out.p); }
+                    free(d3.out.p); free(buf);
+                }
             }
             cur_clear(); rec_write(&r); free(a.p); free(b.p);
         }
